@@ -315,6 +315,7 @@ def main():
                 'of cases) with titles and bodies drawn from XML-reserved, whitespace (tab, CR, trailing blanks), entity-looking, multi-byte and block-syntax atoms; '
                 'export checked against the section model, round trip through OPML (and ITMZ every 4th) in snippet and complete mode, 3 escape/unescape pairs per case; '
                 'non-trivial = >= 1 heading; distinct = distinct sources')
+    chk.rule = chk.rule + ' ; plus: input ending right after the last heading line, heading lines ending in blanks or a backslash, YAML-fenced metadata with the body directly after the fence, and three recorded title shapes'
     chk.assumptions = ['a blank line precedes every generated heading', 'CR in notes compared modulo XML attribute-value normalisation on the reading side (expat), round trip not judged for sources with CR']
     chunk = max(20, n // 64)
     chk.run_jobs(work, [(chk.seed, lo, min(n, lo + chunk)) for lo in range(0, n, chunk)])
